@@ -480,61 +480,65 @@ theorem lookup_isSome_iff (l : List (N × V)) (x : N) : (l.lookup x).isSome = tr
     · have : (x == k) = false := by simpa using hx
       simp [this, hx, ih]
 
+theorem lookup_isSome_iff' {β : Type} (l : List (N × β)) (x : N) :
+    (l.lookup x).isSome = true ↔ x ∈ l.map (·.1) := by
+  induction l with
+  | nil => simp
+  | cons e l ih =>
+    obtain ⟨k, v⟩ := e
+    simp only [List.lookup_cons, List.map_cons, List.mem_cons]
+    by_cases hx : x = k
+    · subst hx; simp
+    · have : (x == k) = false := by simpa using hx
+      simp [this, hx, ih]
+
 theorem lookup_eq_none_iff_not_mem (l : List (N × V)) (x : N) : l.lookup x = none ↔ x ∉ l.map (·.1) := by
   rw [← lookup_isSome_iff]
   cases l.lookup x <;> simp
 
-set_option hygiene false in
-/-- the extra-key branch of `dfLoop`, shared by `resolve = none` and `resolve = some positional-only field` -/
-local macro "df_extra " hr:term : tactic => `(tactic| (
-  obtain ⟨hnk, hnt, hann⟩ := key_extra W hW s wf k hk $hr
-  rw [parseAddition_eq W s k v hk]
-  simp only [Spec.normalise, List.map_cons, Spec.convKw, hnk, hann]
-  cases hvk : s.vk with
-  | none =>
-    exfalso
-    have := h5 hvk (k, v) (by simp)
-    simp only [hnk, hnt] at this
-    cases this
-  | some nt =>
-    obtain ⟨n, t⟩ := nt
-    simp only
-    cases hc : Spec.convO W t v with
-    | none => simp
-    | some x =>
-      simp only
-      rw [ih r (dictSet a k x) h1' h3' h5' hn' hfresh']
-      simp only [Spec.normalise]
-      cases Spec.convKw W s (List.map (fun e => (Spec.normKey W s e.1, e.2)) rest) with
-      | none => rfl
-      | some c => simp [isTarget, hnt, dictUpdate]))
+theorem dictSet_fresh' {β : Type} (d : List (N × β)) (k : N) (v : β) (h : d.lookup k = none) :
+    dictSet d k v = d ++ [(k, v)] := by
+  unfold dictSet; simp [h]
+
+theorem lookup_append_single_ne {β : Type} (d : List (N × β)) (k x : N) (v : β) (h : x ≠ k) :
+    (d ++ [(k, v)]).lookup x = d.lookup x := by
+  have hb : (x == k) = false := by simpa using h
+  rw [List.lookup_append]
+  simp [List.lookup_cons, hb]
+
+/-- the entry phase 1 of `data_first_parse` records for one keyword -/
+def entryOf (W : World N V T) (s : Sig N V T) (e : N × V) : N × Inp N V T :=
+  match resolve W (s.fields W) e.1 with
+  | some f => if f.posOnly then (e.1, ⟨none, e.2, 0⟩) else (f.name, ⟨some f, e.2, rankOf W f e.1⟩)
+  | none => (e.1, ⟨none, e.2, 0⟩)
 
 section dataFirst
 variable (W : World N V T) (hW : LowerIdem W) (s : Sig N V T) (wf : WF W s) (o : Opts) (excl : List N)
 include hW wf
 
-theorem dfLoop_eq (rest : List (N × V)) :
-    ∀ (r a : List (N × V)),
+theorem entryOf_key (e : N × V) (hk : e.1 ∉ s.excludeVars W) : (entryOf W s e).1 = Spec.normKey W s e.1 := by
+  unfold entryOf
+  cases hr : resolve W (s.fields W) e.1 with
+  | none => simp only; exact (key_extra W hW s wf e.1 hk (Or.inl hr)).1.symm
+  | some f =>
+    cases hpo : f.posOnly with
+    | true => simp only [hpo, ↓reduceIte]; exact (key_extra W hW s wf e.1 hk (Or.inr ⟨f, hr, hpo⟩)).1.symm
+    | false =>
+      simp only [hpo, Bool.false_eq_true, ↓reduceIte]; exact (key_field W hW s wf e.1 hk f hr hpo).1.symm
+
+/-- phase 1 when no two keywords spell the same parameter: one fresh entry per keyword, no conflict -/
+theorem dfCollect_eq (rest : List (N × V)) :
+    ∀ (i : List (N × Inp N V T)) (c : List (N × V)),
     (∀ e ∈ rest, e.1 ∉ s.excludeVars W) →
-    (∀ e ∈ rest, ∀ f, resolve W (s.fields W) e.1 = some f → f.posOnly = false → excl.contains f.name = false) →
-    (s.vk = none → ∀ e ∈ rest, s.kwTarget (Spec.normKey W s e.1) = true) →
     ((Spec.normalise W s rest).map (·.1)).Nodup →
-    (∀ e ∈ rest, r.lookup (Spec.normKey W s e.1) = none) →
-    dfLoop W s o excl rest r a =
-      match Spec.convKw W s (Spec.normalise W s rest) with
-      | none => .error .perr
-      | some c => .ok (dictUpdate r (c.filter (isTarget s)), dictUpdate a (c.filter (fun e => !isTarget s e))) := by
+    (∀ e ∈ rest, i.lookup (Spec.normKey W s e.1) = none) →
+    dfCollect W s rest i c = (i ++ rest.map (entryOf W s), c) := by
   induction rest with
-  | nil => intro r a _ _ _ _ _; simp [dfLoop, Spec.normalise, Spec.convKw, dictUpdate]
+  | nil => intro i c _ _ _; simp [dfCollect]
   | cons e rest ih =>
     obtain ⟨k, v⟩ := e
-    intro r a h1 h3 h5 hn hfresh
+    intro i c h1 hn hfresh
     have hk : k ∉ s.excludeVars W := h1 (k, v) (by simp)
-    have h1' : ∀ e ∈ rest, e.1 ∉ s.excludeVars W := fun e he => h1 e (by simp [he])
-    have h3' : ∀ e ∈ rest, ∀ f, resolve W (s.fields W) e.1 = some f → f.posOnly = false →
-        excl.contains f.name = false := fun e he => h3 e (by simp [he])
-    have h5' : s.vk = none → ∀ e ∈ rest, s.kwTarget (Spec.normKey W s e.1) = true :=
-      fun hv e he => h5 hv e (by simp [he])
     simp only [Spec.normalise, List.map_cons, List.nodup_cons] at hn
     have hn' : ((Spec.normalise W s rest).map (·.1)).Nodup := by simpa [Spec.normalise] using hn.2
     have hdist : ∀ e ∈ rest, Spec.normKey W s e.1 ≠ Spec.normKey W s k := by
@@ -542,36 +546,114 @@ theorem dfLoop_eq (rest : List (N × V)) :
       apply hn.1
       simp only [List.mem_map]
       exact ⟨(Spec.normKey W s e.1, e.2), ⟨e, he, rfl⟩, heq⟩
-    have hfresh' : ∀ e ∈ rest, r.lookup (Spec.normKey W s e.1) = none := fun e he => hfresh e (by simp [he])
-    unfold dfLoop
+    have hkey := entryOf_key W hW s wf (k, v) hk
+    have hfr : i.lookup (Spec.normKey W s k) = none := hfresh (k, v) (by simp)
+    have step : ∀ ent : N × Inp N V T, ent.1 = Spec.normKey W s k →
+        dfCollect W s rest (dictSet i ent.1 ent.2) c = (i ++ ent :: rest.map (entryOf W s), c) := by
+      intro ent hent
+      rw [dictSet_fresh' i ent.1 ent.2 (hent ▸ hfr)]
+      rw [ih _ c (fun e he => h1 e (by simp [he])) hn' ?_]
+      · simp
+      · intro e he
+        rw [lookup_append_single_ne _ _ _ _ (hent ▸ hdist e he)]
+        exact hfresh e (by simp [he])
+    unfold dfCollect
+    simp only [List.map_cons]
+    unfold entryOf at hkey ⊢
     cases hr : resolve W (s.fields W) k with
     | none =>
+      simp only [hr] at hkey ⊢
+      exact step (k, ⟨none, v, 0⟩) hkey
+    | some f =>
+      simp only [hr] at hkey ⊢
+      cases hpo : f.posOnly with
+      | true =>
+        simp only [hpo, if_true] at hkey ⊢
+        exact step (k, ⟨none, v, 0⟩) hkey
+      | false =>
+        simp only [hpo, Bool.false_eq_true, if_false] at hkey ⊢
+        have : i.lookup f.name = none := by simpa [hkey] using hfr
+        simp only [this]
+        exact step (f.name, ⟨some f, v, rankOf W f k⟩) hkey
+
+/-- phase 2 on those entries -/
+theorem dfApply_eq (rest : List (N × V)) :
+    ∀ (r a : List (N × V)),
+    (∀ e ∈ rest, e.1 ∉ s.excludeVars W) →
+    (∀ e ∈ rest, ∀ f, resolve W (s.fields W) e.1 = some f → f.posOnly = false → excl.contains f.name = false) →
+    (s.vk = none → ∀ e ∈ rest, s.kwTarget (Spec.normKey W s e.1) = true) →
+    dfApply W s o excl [] (rest.map (entryOf W s)) r a =
+      match Spec.convKw W s (Spec.normalise W s rest) with
+      | none => .error .perr
+      | some c => .ok (dictUpdate r (c.filter (isTarget s)), dictUpdate a (c.filter (fun e => !isTarget s e))) := by
+  induction rest with
+  | nil => intro r a _ _ _; simp [dfApply, Spec.normalise, Spec.convKw, dictUpdate]
+  | cons e rest ih =>
+    obtain ⟨k, v⟩ := e
+    intro r a h1 h3 h5
+    have hk : k ∉ s.excludeVars W := h1 (k, v) (by simp)
+    have h1' : ∀ e ∈ rest, e.1 ∉ s.excludeVars W := fun e he => h1 e (by simp [he])
+    have h3' : ∀ e ∈ rest, ∀ f, resolve W (s.fields W) e.1 = some f → f.posOnly = false →
+        excl.contains f.name = false := fun e he => h3 e (by simp [he])
+    have h5' : s.vk = none → ∀ e ∈ rest, s.kwTarget (Spec.normKey W s e.1) = true :=
+      fun hv e he => h5 hv e (by simp [he])
+    -- the additional-key entry
+    have extra : (resolve W (s.fields W) k = none ∨ ∃ f, resolve W (s.fields W) k = some f ∧ f.posOnly = true) →
+        dfApply W s o excl [] ((k, (⟨none, v, 0⟩ : Inp N V T)) :: rest.map (entryOf W s)) r a =
+        match Spec.convKw W s (Spec.normalise W s ((k, v) :: rest)) with
+        | none => Except.error Err.perr
+        | some c => Except.ok (dictUpdate r (c.filter (isTarget s)), dictUpdate a (c.filter (fun e => !isTarget s e))) := by
+      intro hr
+      obtain ⟨hnk, hnt, hann⟩ := key_extra W hW s wf k hk hr
+      rw [dfApply]
       simp only
-      df_extra (Or.inl hr)
+      rw [parseAddition_eq W s k v hk]
+      simp only [Spec.normalise, List.map_cons, Spec.convKw, hnk, hann]
+      cases hvk : s.vk with
+      | none =>
+        exfalso
+        have := h5 hvk (k, v) (by simp)
+        simp only [hnk, hnt] at this
+        cases this
+      | some nt =>
+        obtain ⟨n, t⟩ := nt
+        simp only
+        cases hc : Spec.convO W t v with
+        | none => simp
+        | some x =>
+          simp only
+          rw [ih r (dictSet a k x) h1' h3' h5']
+          simp only [Spec.normalise]
+          cases Spec.convKw W s (List.map (fun e => (Spec.normKey W s e.1, e.2)) rest) with
+          | none => rfl
+          | some c => simp [isTarget, hnt, dictUpdate]
+    simp only [List.map_cons]
+    cases hr : resolve W (s.fields W) k with
+    | none =>
+      have : entryOf W s (k, v) = (k, ⟨none, v, 0⟩) := by unfold entryOf; simp [hr]
+      rw [this]; exact extra (Or.inl hr)
     | some f =>
       cases hpo : f.posOnly with
       | true =>
-        simp only [hpo, ↓reduceIte]
-        df_extra (Or.inr ⟨f, hr, hpo⟩)
+        have : entryOf W s (k, v) = (k, ⟨none, v, 0⟩) := by unfold entryOf; simp [hr, hpo]
+        rw [this]; exact extra (Or.inr ⟨f, hr, hpo⟩)
       | false =>
+        have : entryOf W s (k, v) = (f.name, ⟨some f, v, rankOf W f k⟩) := by unfold entryOf; simp [hr, hpo]
+        rw [this]
         obtain ⟨hnk, hkw, hnp, hkt, hann⟩ := key_field W hW s wf k hk f hr hpo
-        have hfr : r.lookup f.name = none := hnk ▸ hfresh (k, v) (by simp)
         have hex : excl.contains f.name = false := h3 (k, v) (by simp) f hr hpo
-        simp only [hpo, hfr, hex, Option.isSome_none, Bool.and_false, Bool.false_eq_true, ↓reduceIte]
+        rw [dfApply]
+        simp only [List.lookup_nil, Option.isSome_none, Bool.false_and, Bool.false_eq_true, if_false, hex]
         simp only [Spec.normalise, List.map_cons, Spec.convKw, hnk, hann, convBy_eq]
         cases hc : Spec.convO W f.ann v with
         | none => simp
         | some p =>
           simp only
-          rw [ih (dictSet r f.name p) a h1' h3' h5' hn' ?_]
-          · simp only [Spec.normalise]
-            cases Spec.convKw W s (List.map (fun e => (Spec.normKey W s e.1, e.2)) rest) with
-            | none => rfl
-            | some c => simp [isTarget, hkt, dictUpdate]
-          · intro e he
-            rw [lookup_dictSet]
-            have : Spec.normKey W s e.1 ≠ f.name := hnk ▸ hdist e he
-            simp [this, hfresh' e he]
+          rw [ih (dictSet r f.name p) a h1' h3' h5']
+          simp only [Spec.normalise]
+          cases Spec.convKw W s (List.map (fun e => (Spec.normKey W s e.1, e.2)) rest) with
+          | none => rfl
+          | some c => simp [isTarget, hkt, dictUpdate]
 
 omit hW wf in
 theorem filterMap_congr' {α β : Type} {f g : α → Option β} {l : List α} (h : ∀ x ∈ l, f x = g x) :
@@ -584,48 +666,34 @@ theorem filterMap_congr' {α β : Type} {f g : α → Option β} {l : List α} (
 
 omit hW wf in
 /-- the entries `dfDefaults` appends -/
-theorem dfDefaults_eq (l : List (Param N V T)) (hl : (l.map (·.name)).Nodup) :
+theorem dfDefaults_eq (given : N → Bool) (l : List (Param N V T)) (hl : (l.map (·.name)).Nodup) :
     ∀ (R : List (N × V)),
-    (∀ f ∈ l, R.lookup f.name = none → excl.contains f.name = false → f.dflt.isSome = true) →
-    dfDefaults excl l R = .ok (R ++ l.filterMap (fun f =>
-      if (R.lookup f.name).isSome || excl.contains f.name then none else f.dflt.map (fun d => (f.name, d)))) := by
+    (∀ f ∈ l, given f.name = false → excl.contains f.name = false →
+        R.lookup f.name = none ∧ f.dflt.isSome = true) →
+    dfDefaults given excl l R = .ok (R ++ l.filterMap (fun f =>
+      if given f.name || excl.contains f.name then none else f.dflt.map (fun d => (f.name, d)))) := by
   induction l with
   | nil => intro R _; simp [dfDefaults]
   | cons f l ih =>
     intro R hreq
     simp only [List.map_cons, List.nodup_cons] at hl
     unfold dfDefaults
-    by_cases hskip : ((R.lookup f.name).isSome || excl.contains f.name) = true
+    by_cases hskip : (given f.name || excl.contains f.name) = true
     · simp only [hskip, if_true, List.filterMap_cons]
       exact ih hl.2 R (fun g hg => hreq g (by simp [hg]))
-    · have hskip' : ((R.lookup f.name).isSome || excl.contains f.name) = false := Bool.eq_false_iff.mpr hskip
+    · have hskip' : (given f.name || excl.contains f.name) = false := Bool.eq_false_iff.mpr hskip
       simp only [Bool.or_eq_false_iff] at hskip'
-      have hnone : R.lookup f.name = none := by
-        cases hh : R.lookup f.name with
-        | none => rfl
-        | some _ => simp [hh] at hskip'
-      have hd := hreq f (by simp) hnone hskip'.2
+      obtain ⟨hnone, hd⟩ := hreq f (by simp) hskip'.1 hskip'.2
       cases hdf : f.dflt with
       | none => simp [hdf] at hd
       | some d =>
         simp only [hskip, Bool.false_eq_true, if_false, List.filterMap_cons, hdf, Option.map_some]
         rw [dictSet_fresh R f.name d hnone, ih hl.2]
-        · congr 1
-          rw [List.append_assoc]
-          congr 1
-          simp only [List.singleton_append, List.cons.injEq, true_and]
-          apply filterMap_congr'
-          intro g hg
+        · simp [List.append_assoc]
+        · intro g hg hgv he
           have hne : g.name ≠ f.name := fun h => hl.1 (h ▸ List.mem_map_of_mem hg)
-          have hb : (g.name == f.name) = false := by simpa using hne
-          rw [List.lookup_append]
-          simp only [List.lookup_cons, hb, List.lookup_nil, Option.or_none]
-        · intro g hg hl' he
-          have hne : g.name ≠ f.name := fun h => hl.1 (h ▸ List.mem_map_of_mem hg)
-          have hb : (g.name == f.name) = false := by simpa using hne
-          rw [List.lookup_append] at hl'
-          simp only [List.lookup_cons, hb, List.lookup_nil, Option.or_none] at hl'
-          exact hreq g (by simp [hg]) (by simpa using hl') he
+          obtain ⟨h1, h2⟩ := hreq g (by simp [hg]) hgv he
+          exact ⟨by rw [lookup_append_single_ne _ _ _ _ hne]; exact h1, h2⟩
 
 /-- every keyword of the call either names (under an accepted spelling) a keyword-capable field that was not passed
 positionally, or is an extra key -/
@@ -663,11 +731,13 @@ theorem dataFirst_obs (kw : List (N × V))
     match Spec.convKw W s (Spec.normalise W s kw) with
     | none => dataFirst W s o excl kw = .error .perr
     | some c => ∃ kw', dataFirst W s o excl kw = .ok kw' ∧ Obs W s excl c kw' := by
-  have hloop := dfLoop_eq W hW s wf o excl kw [] [] h1 h3 h5 hn (by intro e _; rfl)
+  have hcoll := dfCollect_eq W hW s wf kw [] [] h1 hn (by intro e _; rfl)
+  have hloop := dfApply_eq W hW s wf o excl kw [] [] h1 h3 h5
+  simp only [List.nil_append] at hcoll
   cases hc : Spec.convKw W s (Spec.normalise W s kw) with
   | none =>
     simp only [hc] at hloop
-    simp [dataFirst, hloop]
+    simp [dataFirst, hcoll, hloop]
   | some c =>
     simp only [hc] at hloop
     have hkeys : c.map (·.1) = (Spec.normalise W s kw).map (·.1) := convKw_keys W s _ c hc
@@ -731,10 +801,46 @@ theorem dataFirst_obs (kw : List (N × V))
           rw [lookup_isSome_iff, hkeys, ← lookup_isSome_iff]; exact h
         rw [hnone] at h2; cases h2
       · exact h
-    have hdef := dfDefaults_eq excl (s.fields W) (fields_names_nodup W s wf) R hreq'
+    -- "was given" (a key of `inputs`) is "has an entry in R" for a field that is not excluded
+    have hgiven : ∀ x, ((kw.map (entryOf W s)).lookup x).isSome = (c.lookup x).isSome := by
+      intro x
+      have hk1 : (kw.map (entryOf W s)).map (·.1) = c.map (·.1) := by
+        rw [hkeys]
+        simp only [Spec.normalise, List.map_map]
+        apply List.map_congr_left
+        intro e he
+        exact entryOf_key W hW s wf e (h1 e he)
+      have h1' : ((kw.map (entryOf W s)).lookup x).isSome = true ↔ x ∈ (kw.map (entryOf W s)).map (·.1) :=
+        lookup_isSome_iff' _ x
+      have h2' := lookup_isSome_iff c x
+      rw [hk1] at h1'
+      cases h : ((kw.map (entryOf W s)).lookup x).isSome <;> cases h' : (c.lookup x).isSome <;> simp_all
+    have hgR : ∀ f ∈ s.fields W, excl.contains f.name = false →
+        ((kw.map (entryOf W s)).lookup f.name).isSome = (R.lookup f.name).isSome := by
+      intro f hf hex
+      rw [hgiven, hRlook _ ((kwTarget_iff s _).mpr ⟨f, htarget f hf hex, rfl⟩)]
+    have hdef := dfDefaults_eq excl (fun x => ((kw.map (entryOf W s)).lookup x).isSome) (s.fields W)
+      (fields_names_nodup W s wf) R (by
+        intro f hf hg hex
+        have hrn : R.lookup f.name = none := by
+          have := hgR f hf hex
+          simp only [hg] at this
+          cases hh : R.lookup f.name with
+          | none => rfl
+          | some _ => rw [hh] at this; cases this
+        exact ⟨hrn, hreq' f hf hrn hex⟩)
     obtain ⟨D, hDdef⟩ : ∃ D, D = (s.fields W).filterMap (fun f =>
       if (R.lookup f.name).isSome || excl.contains f.name then none else f.dflt.map (fun d => (f.name, d))) := ⟨_, rfl⟩
-    rw [← hDdef] at hdef
+    have hDeq : (s.fields W).filterMap (fun f =>
+        if ((kw.map (entryOf W s)).lookup f.name).isSome || excl.contains f.name then none
+        else f.dflt.map (fun d => (f.name, d))) = D := by
+      rw [hDdef]
+      apply filterMap_congr'
+      intro f hf
+      by_cases hex : excl.contains f.name = true
+      · simp only [hex, Bool.or_true]
+      · simp only [hgR f hf (by simpa using hex)]
+    rw [hDeq] at hdef
     have hDkey : ∀ e ∈ D, ∃ f ∈ s.fields W, e.1 = f.name ∧ excl.contains f.name = false ∧ R.lookup f.name = none
         ∧ f.dflt = some e.2 := by
       intro e he
@@ -772,7 +878,7 @@ theorem dataFirst_obs (kw : List (N × V))
       simp only [isTarget, heq, hnt] at this
       cases this
     refine ⟨(R ++ D) ++ A, ?_, ?_, ?_⟩
-    · simp only [dataFirst, hloop, hdef]
+    · simp only [dataFirst, hcoll, hloop, hdef]
       rw [dictUpdate_fresh _ A hsubN hfreshA]
     · -- lookups at keyword-capable parameters
       intro p hp
@@ -919,70 +1025,119 @@ theorem mem_of_lookup (l : List (N × V)) (x : N) (v : V) (h : l.lookup x = some
       simp only [hb] at h
       exact List.mem_cons_of_mem _ (ih h)
 
-/-- the lower-casing fold of `field_first_parse`: with at most one given key looked up as `x`, `x` finds it -/
-theorem lookup_fold_dictSet (K : N → N) (x : N) (data : List (N × V)) :
-    ∀ (acc : List (N × V)),
-    (∀ e₁ ∈ data, ∀ e₂ ∈ data, K e₁.1 = x → K e₂.1 = x → e₁ = e₂) →
-    (data.foldl (fun d e => dictSet d (K e.1) e.2) acc).lookup x
-      = ((data.find? (fun e => K e.1 == x)).map (·.2)).or (acc.lookup x) := by
+theorem prepStep_lookup1 (K : N → N) (x : N) (dc : List (N × V) × List (N × V)) (e : N × V) :
+    (prepStep K dc e).1.lookup x = if K e.1 = x then (dc.1.lookup x).or (some e.2) else dc.1.lookup x := by
+  unfold prepStep
+  by_cases hk : K e.1 = x
+  · subst hk
+    cases h : dc.1.lookup (K e.1) with
+    | some y => simp [h]
+    | none => simp [h, List.lookup_append, List.lookup_cons]
+  · cases h : dc.1.lookup (K e.1) with
+    | some y => simp [hk]
+    | none =>
+      simp only [hk, if_false]
+      exact lookup_append_single_ne _ _ _ _ (fun h' => hk h'.symm)
+
+/-- the lower-casing fold of `field_first_parse` (first spelling wins): what key `x` finds -/
+theorem prep_fold_lookup (K : N → N) (x : N) (data : List (N × V)) :
+    ∀ (acc : List (N × V) × List (N × V)),
+    (data.foldl (prepStep K) acc).1.lookup x
+      = (acc.1.lookup x).or ((data.find? (fun e => K e.1 == x)).map (·.2)) := by
   induction data with
-  | nil => intro acc _; simp
+  | nil => intro acc; simp
   | cons e data ih =>
-    intro acc huniq
+    intro acc
     simp only [List.foldl_cons]
-    rw [ih _ (fun a ha b hb => huniq a (by simp [ha]) b (by simp [hb]))]
-    rw [lookup_dictSet]
+    rw [ih, prepStep_lookup1]
     by_cases hk : K e.1 = x
     · have hb : (K e.1 == x) = true := by simpa using hk
-      simp only [List.find?_cons, hb, Option.map_some, Option.some_or, hk, if_true]
-      cases hf : data.find? (fun e => K e.1 == x) with
-      | none => simp
-      | some e' =>
-        have he' := List.mem_of_find?_eq_some hf
-        have hke : K e'.1 = x := by simpa using List.find?_some hf
-        have := huniq e (by simp) e' (by simp [he']) hk hke
-        subst this
-        simp
+      simp only [hk, if_true, List.find?_cons, hb, Option.map_some]
+      cases acc.1.lookup x <;> simp
     · have hb : (K e.1 == x) = false := by simpa using hk
-      have hx : ¬ x = K e.1 := fun h => hk h.symm
-      simp [List.find?_cons, hb, hx]
+      simp only [hk, if_false, List.find?_cons, hb]
 
-theorem ffScan_agree (o : Opts) (data' : List (N × V)) (u : Option V) (names : List N) :
+/-- … and no conflict is recorded under `x` when all given keys looked up as `x` carry one value -/
+theorem prep_fold_conflicts (K : N → N) (x : N) (data : List (N × V)) :
+    ∀ (acc : List (N × V) × List (N × V)),
+    (∀ e₁ ∈ data, ∀ e₂ ∈ data, K e₁.1 = x → K e₂.1 = x → e₁.2 = e₂.2) →
+    (∀ e ∈ data, K e.1 = x → acc.1.lookup x = none ∨ acc.1.lookup x = some e.2) →
+    (data.foldl (prepStep K) acc).2.lookup x = acc.2.lookup x := by
+  induction data with
+  | nil => intro acc _ _; rfl
+  | cons e data ih =>
+    intro acc huniq hacc
+    simp only [List.foldl_cons]
+    rw [ih _ (fun a ha b hb => huniq a (by simp [ha]) b (by simp [hb]))]
+    · -- the step itself records nothing under x
+      unfold prepStep
+      by_cases hk : K e.1 = x
+      · rcases hacc e (by simp) hk with h | h
+        · rw [hk, h]
+        · rw [hk, h]; simp
+      · cases h : acc.1.lookup (K e.1) with
+        | none => rfl
+        | some y =>
+          simp only
+          split
+          · exact lookup_append_single_ne _ _ _ _ (fun h' => hk h'.symm)
+          · rfl
+    · intro e' he' hk'
+      rw [prepStep_lookup1]
+      by_cases hk : K e.1 = x
+      · simp only [hk, if_true]
+        have hv : e.2 = e'.2 := huniq e (by simp) e' (by simp [he']) hk hk'
+        rcases hacc e (by simp) hk with h | h
+        · rw [h]; simp [hv]
+        · rw [h]; simp [hv]
+      · simp only [hk, if_false]
+        exact hacc e' (by simp [he']) hk'
+
+theorem ffScan_agree (o : Opts) (data' conflicts : List (N × V)) (u : Option V) (names : List N) :
     ∀ (acc : Option V), (acc = none ∨ acc = u) →
     (∀ al ∈ names, data'.lookup al = none ∨ data'.lookup al = u) →
-    ffScan o data' names acc = .ok (acc.or (names.findSome? (fun al => data'.lookup al))) := by
+    (∀ al ∈ names, conflicts.lookup al = none) →
+    ffScan o data' conflicts names acc = .ok (acc.or (names.findSome? (fun al => data'.lookup al))) := by
   induction names with
-  | nil => intro acc _ _; simp [ffScan]
+  | nil => intro acc _ _ _; simp [ffScan]
   | cons al als ih =>
-    intro acc hacc hall
+    intro acc hacc hall hconf
     have hall' : ∀ al ∈ als, data'.lookup al = none ∨ data'.lookup al = u := fun a ha => hall a (by simp [ha])
+    have hconf' : ∀ al ∈ als, conflicts.lookup al = none := fun a ha => hconf a (by simp [ha])
+    have hc : conflicts.lookup al = none := hconf al (by simp)
     unfold ffScan
     cases hl : data'.lookup al with
     | none =>
       simp only [List.findSome?_cons, hl]
-      exact ih acc hacc hall'
+      exact ih acc hacc hall' hconf'
     | some x =>
       have hux : u = some x := by
         rcases hall al (by simp) with h | h
         · rw [hl] at h; cases h
         · rw [hl] at h; exact h.symm
       simp only [List.findSome?_cons, hl]
-      cases acc with
-      | none =>
-        simp only [Option.none_or]
-        rw [ih (some x) (Or.inr hux.symm) hall']
-        simp
-      | some v =>
-        have hv : v = x := by
+      by_cases hi : o.ignoreAliasConflicts = true
+      · simp only [hi, if_true]
+        cases acc with
+        | none => simp
+        | some v =>
           rcases hacc with h | h
           · cases h
-          · rw [hux] at h; injection h
-        subst hv
-        simp only [Option.some_or]
-        by_cases hi : o.ignoreAliasConflicts = true
-        · simp [hi]
-        · simp only [hi, Bool.false_eq_true, if_false, bne_self_eq_false]
-          rw [ih (some v) (Or.inr hux.symm) hall']
+          · rw [hux] at h; injection h with h; subst h; simp
+      · simp only [hi, Bool.false_eq_true, if_false]
+        cases acc with
+        | none =>
+          simp only [hc, Option.isSome_none, Bool.false_eq_true, if_false, Option.none_or]
+          rw [ih (some x) (Or.inr hux.symm) hall' hconf']
+          simp
+        | some v =>
+          have hv : v = x := by
+            rcases hacc with h | h
+            · cases h
+            · rw [hux] at h; injection h
+          subst hv
+          simp only [bne_self_eq_false, Bool.false_eq_true, if_false, hc, Option.isSome_none, Option.some_or]
+          rw [ih (some v) (Or.inr hux.symm) hall' hconf']
           simp
 
 section fieldFirst
@@ -1051,7 +1206,7 @@ theorem normKey_eq_iff (f : Param N V T) (hf : f ∈ s.fields W) (hkw : f ∈ Sp
 theorem ffScan_field (data : List (N × V)) (h1 : ∀ e ∈ data, e.1 ∉ s.excludeVars W)
     (hn : ((Spec.normalise W s data).map (·.1)).Nodup)
     (f : Param N V T) (hf : f ∈ s.fields W) (hkw : f ∈ Spec.kwParams s) :
-    ffScan o (ffData W (s.fields W) data) (f.allNames W) none
+    ffScan o (ffPrep W (s.fields W) data).1 (ffPrep W (s.fields W) data).2 (f.allNames W) none
       = .ok ((Spec.normalise W s data).lookup f.name) := by
   -- at most one given key is looked up under a spelling of f
   have hnn : (data.map (fun e => Spec.normKey W s e.1)).Nodup := by
@@ -1065,10 +1220,22 @@ theorem ffScan_field (data : List (N × V)) (h1 : ∀ e ∈ data, e.1 ∉ s.excl
     rw [(normKey_eq_iff W hW s wf f hf hkw e₁.1 (h1 e₁ h₁)).mpr m₁,
       (normKey_eq_iff W hW s wf f hf hkw e₂.1 (h1 e₂ h₂)).mpr m₂]
   -- what a spelling of f finds in the lookup dict
-  have hlook : ∀ al ∈ f.allNames W, (ffData W (s.fields W) data).lookup al
+  have hconf : ∀ al ∈ f.allNames W, (ffPrep W (s.fields W) data).2.lookup al = none := by
+    intro al hal
+    unfold ffPrep
+    by_cases hci : (ciNames W (s.fields W)).isEmpty = true
+    · simp [hci]
+    · simp only [hci, Bool.false_eq_true, if_false]
+      rw [prep_fold_conflicts]
+      · rfl
+      · intro e₁ h₁ e₂ h₂ k₁ k₂
+        rw [huniq e₁ h₁ e₂ h₂ ((ffKey_mem_iff W hW s wf f hf e₁.1).mp (k₁ ▸ hal))
+          ((ffKey_mem_iff W hW s wf f hf e₂.1).mp (k₂ ▸ hal))]
+      · intro e _ _; exact Or.inl rfl
+  have hlook : ∀ al ∈ f.allNames W, (ffPrep W (s.fields W) data).1.lookup al
       = (data.find? (fun e => ffKey W (s.fields W) e.1 == al)).map (·.2) := by
     intro al hal
-    unfold ffData
+    unfold ffPrep
     by_cases hci : (ciNames W (s.fields W)).isEmpty = true
     · simp only [hci, if_true]
       have hK : ∀ k, ffKey W (s.fields W) k = k := by
@@ -1077,7 +1244,7 @@ theorem ffScan_field (data : List (N × V)) (h1 : ∀ e ∈ data, e.1 ∉ s.excl
         have : ciNames W (s.fields W) = [] := by simpa using hci
         simp [this]
       simp only [hK]
-      clear huniq hnn hn h1
+      clear huniq hnn hn h1 hconf
       induction data with
       | nil => rfl
       | cons e data ih =>
@@ -1090,16 +1257,12 @@ theorem ffScan_field (data : List (N × V)) (h1 : ∀ e ∈ data, e.1 ∉ s.excl
           simp only [h1, h2]
           exact ih
     · simp only [hci, Bool.false_eq_true, if_false]
-      rw [lookup_fold_dictSet]
-      · simp
-      · intro e₁ h₁ e₂ h₂ k₁ k₂
-        apply huniq e₁ h₁ e₂ h₂
-        · exact (ffKey_mem_iff W hW s wf f hf e₁.1).mp (k₁ ▸ hal)
-        · exact (ffKey_mem_iff W hW s wf f hf e₂.1).mp (k₂ ▸ hal)
+      rw [prep_fold_lookup]
+      simp
   have hnk : ((Spec.normalise W s data).map (·.1)).Nodup := hn
   -- every spelling present carries the value the normalised call has for f
-  have hall : ∀ al ∈ f.allNames W, (ffData W (s.fields W) data).lookup al = none ∨
-      (ffData W (s.fields W) data).lookup al = (Spec.normalise W s data).lookup f.name := by
+  have hall : ∀ al ∈ f.allNames W, (ffPrep W (s.fields W) data).1.lookup al = none ∨
+      (ffPrep W (s.fields W) data).1.lookup al = (Spec.normalise W s data).lookup f.name := by
     intro al hal
     rw [hlook al hal]
     cases hfind : data.find? (fun e => ffKey W (s.fields W) e.1 == al) with
@@ -1115,7 +1278,7 @@ theorem ffScan_field (data : List (N × V)) (h1 : ∀ e ∈ data, e.1 ∉ s.excl
       have := lookup_of_mem_nodup _ hnk _ hmem
       simp only [hnorm] at this
       simp [this]
-  rw [ffScan_agree o _ ((Spec.normalise W s data).lookup f.name) _ none (Or.inl rfl) hall]
+  rw [ffScan_agree o _ _ ((Spec.normalise W s data).lookup f.name) _ none (Or.inl rfl) hall hconf]
   simp only [Option.none_or]
   congr 1
   cases hu : (Spec.normalise W s data).lookup f.name with
@@ -1134,7 +1297,7 @@ theorem ffScan_field (data : List (N × V)) (h1 : ∀ e ∈ data, e.1 ∉ s.excl
     have hval : e.2 = x := by injection heq
     have hm := (normKey_eq_iff W hW s wf f hf hkw e.1 (h1 e he)).mp hnorm
     have hal := (ffKey_mem_iff W hW s wf f hf e.1).mpr hm
-    have hl : (ffData W (s.fields W) data).lookup (ffKey W (s.fields W) e.1) = some x := by
+    have hl : (ffPrep W (s.fields W) data).1.lookup (ffKey W (s.fields W) e.1) = some x := by
       rcases hall _ hal with h | h
       · exfalso
         rw [hlook _ hal] at h
@@ -1146,7 +1309,7 @@ theorem ffScan_field (data : List (N × V)) (h1 : ∀ e ∈ data, e.1 ∉ s.excl
         | some _ => simp [hfd] at h
       · rw [h, hu]
     -- findSome? returns the first present spelling; all present spellings carry x
-    cases hfs : (f.allNames W).findSome? (fun al => (ffData W (s.fields W) data).lookup al) with
+    cases hfs : (f.allNames W).findSome? (fun al => (ffPrep W (s.fields W) data).1.lookup al) with
     | none =>
       exfalso
       rw [List.findSome?_eq_none_iff] at hfs
@@ -1252,7 +1415,7 @@ theorem ffLoop_ok (data c : List (N × V)) (h1 : ∀ e ∈ data, e.1 ∉ s.exclu
         ((Spec.normalise W s data).lookup f.name).isSome = true ∨ f.dflt.isSome = true)
     (l : List (Param N V T)) (hl : (l.map (·.name)).Nodup) (hsub : ∀ f ∈ l, f ∈ s.fields W) :
     ∀ (r : List (N × V)) (u : List N), (∀ f ∈ l, r.lookup f.name = none) →
-    ffLoop W o excl (ffData W (s.fields W) data) l r u
+    ffLoop W o excl (ffPrep W (s.fields W) data).1 (ffPrep W (s.fields W) data).2 l r u
       = .ok (r ++ l.filterMap (fun f =>
               (if excl.contains f.name then none else (c.lookup f.name).or f.dflt).map (fun v => (f.name, v))),
              u ++ l.flatMap (fun f =>
@@ -1365,8 +1528,8 @@ theorem ffAddition_ok (used : List N) (rest : List (N × V)) :
 
 omit hW wf in
 /-- the spellings `ffLoop` marks as used belong to fields it did not skip -/
-theorem ffLoop_used (data' : List (N × V)) (l : List (Param N V T)) :
-    ∀ (r r' : List (N × V)) (u u' : List N), ffLoop W o excl data' l r u = .ok (r', u') →
+theorem ffLoop_used (data' cf : List (N × V)) (l : List (Param N V T)) :
+    ∀ (r r' : List (N × V)) (u u' : List N), ffLoop W o excl data' cf l r u = .ok (r', u') →
     ∀ x ∈ u', x ∈ u ∨ ∃ g ∈ l, excl.contains g.name = false ∧ x ∈ g.allNames W := by
   induction l with
   | nil =>
@@ -1399,10 +1562,10 @@ theorem ffLoop_used (data' : List (N × V)) (l : List (Param N V T)) :
 
 omit hW wf in
 /-- a field whose given value does not convert makes the field loop fail -/
-theorem ffLoop_error (data' : List (N × V)) (f : Param N V T) (v : V) (hex : excl.contains f.name = false)
-    (hscan : ffScan o data' (f.allNames W) none = .ok (some v)) (hconv : convBy W f.ann v = .error .perr)
+theorem ffLoop_error (data' cf : List (N × V)) (f : Param N V T) (v : V) (hex : excl.contains f.name = false)
+    (hscan : ffScan o data' cf (f.allNames W) none = .ok (some v)) (hconv : convBy W f.ann v = .error .perr)
     (l : List (Param N V T)) (hf : f ∈ l) :
-    ∀ (r : List (N × V)) (u : List N), ffLoop W o excl data' l r u = .error .perr := by
+    ∀ (r : List (N × V)) (u : List N), ffLoop W o excl data' cf l r u = .error .perr := by
   induction l with
   | nil => cases hf
   | cons g l ih =>
@@ -1517,7 +1680,7 @@ theorem fieldFirst_obs (kw : List (N × V))
       simp only at hlk
       rw [hlk] at hscan
       have hconv : convBy W f.ann e.2 = .error .perr := by rw [convBy_eq, hfail]
-      simp only [fieldFirst, ffLoop_error W o excl _ f e.2 hex hscan hconv (s.fields W) hf [] []]
+      simp only [fieldFirst, ffLoop_error W o excl _ _ f e.2 hex hscan hconv (s.fields W) hf [] []]
     · rw [hnk, hann] at hfail
       cases hvk : s.vk with
       | none =>
@@ -1530,7 +1693,7 @@ theorem fieldFirst_obs (kw : List (N × V))
         have hp : parseAddition W s e.1 e.2 = .error .perr := by
           rw [parseAddition_eq W s e.1 e.2 (h1 e he), hvk]; simp only [hfail]
         unfold fieldFirst
-        cases hloop : ffLoop W o excl (ffData W (s.fields W) kw) (s.fields W) [] [] with
+        cases hloop : ffLoop W o excl (ffPrep W (s.fields W) kw).1 (ffPrep W (s.fields W) kw).2 (s.fields W) [] [] with
         | error e' => simp only [err_eq e']
         | ok ru =>
           obtain ⟨r, u⟩ := ru
@@ -1540,7 +1703,7 @@ theorem fieldFirst_obs (kw : List (N × V))
             | true =>
               exfalso
               have hx : ffKey W (s.fields W) e.1 ∈ u := by simpa using hcon
-              rcases ffLoop_used W o excl _ _ _ _ _ _ hloop _ hx with h | ⟨g, hg, hex, hmem⟩
+              rcases ffLoop_used W o excl _ _ _ _ _ _ _ hloop _ hx with h | ⟨g, hg, hex, hmem⟩
               · cases h
               · exact hextra e he hnk hnt g hg hex hmem
           simp only [hvk, Option.isSome_some, if_true, ffAddition_error W s u e hu hp kw he []]
